@@ -305,6 +305,9 @@ def join_ty(a, b):
     if isinstance(b, TRef) and b.universal and a in (TStr, TInt, TBool): return b
     if isinstance(a, TTuple) and isinstance(b, TTuple) and len(a.items) == len(b.items):
         return TTuple([join_ty(x, y) for x, y in zip(a.items, b.items)])
+    # the empty literal ( (), [], set(), frozenset(), {} ) is a value of every collection type
+    if isinstance(b, TTuple) and not b.items and isinstance(a, (TSet, TMap, TOMap)): return a
+    if isinstance(a, TTuple) and not a.items and isinstance(b, (TSet, TMap, TOMap)): return b
     if isinstance(a, TSeq) and isinstance(b, TTuple):
         return TSeq(_join_all([a.elem] + b.items))
     if isinstance(b, TSeq) and isinstance(a, TTuple):
